@@ -168,6 +168,20 @@ ADDED3 = {
  "C19": " Symbol keys are matched by number (C19-KEY); Compare does not dereference symbol operands (C19-DEREF: recorded finding).",
  "C20": " No text returned to the script is formatted with %p, with %v/%#v of a script value or of a type holding nested pointers, or from runtime.Stack (C20-ADDR; five diagnostic dumps exempt by table, the stack trace in the error text of a panicking builtin is a recorded finding).",
 }
+ADDED4 = {
+ "C01": " After round 4: the exemption of an unchecked assertion that follows a validating call holds only while that call succeeds solely on paths that found the same field path to be of the asserted type; a constant nil handed to a pointer parameter outside the barrier is followed into its uses (C01-NILARG).",
+ "C04": " A routine that rewrites the arguments of a call on the data stack pops *nargs, pushes the list and stores its length, with no other adjustment (C04-ARGS).",
+ "C06": " After e / E a sign is written into the pending atom only on the true side of a number-pattern match of that atom (C06-EXP).",
+ "C07": " A float sign routine returns a nonzero result only under the matching strict comparison with zero (C07-SIGN).",
+ "C09": " The last sub-form of begin, let, newScope, the default cond arm and the last and/or arm is compiled with the incoming tail flag (C09-LAST).",
+ "C12": " A printer that marks a container as seen and forgets it does so on every exit (C12-SEEN).",
+ "C13": " The lexer's pending atom is terminated only at nesting depth 0 (C13-FLUSHTOP).",
+ "C16": " Every value pushed on the lazy branch of the run-time route is the source wrapper.",
+ "C17": " Derived slice and pointer types are interned under a constant prefix plus the element type's RegisteredName (C17-DERIVED).",
+ "C18": " The path element that passes the privacy test is the one whose name is assigned, in the same iteration (C18-HOP).",
+}
+for k,v in ADDED4.items():
+    CLAIMS[k]["text"] = CLAIMS[k]["text"] + v
 for k,v in ADDED3.items():
     CLAIMS[k]["text"] = CLAIMS[k]["text"] + v
 NA_DEFAULT="rules not built yet (build in progress; see DESIGN.md §7)"
